@@ -5,6 +5,7 @@ at call time, and consult the *current monitor* (CUR.mon); with no monitor they 
 """
 import copy
 import collections
+import os
 import concurrent.futures as cf
 import threading
 
@@ -212,3 +213,62 @@ def wrap_scripted(cls):
     if "optimization_step" in cls.__dict__ and not hasattr(cls.__dict__["optimization_step"], "__wrapped__"):
         setattr(cls, "optimization_step", _wrap_step(cls.__dict__["optimization_step"]))
     return cls
+
+
+# ---- H-cov: which executable lines of the repository the workload actually drove (sys.monitoring, LINE + DISABLE) ----
+_COV = {"on": False, "new": set()}
+_PVDIR = os.path.join(env.REPO, "pyvolutionary") + os.sep
+
+
+def cov_start():
+    import sys
+    if _COV["on"] or not hasattr(sys, "monitoring"):
+        return
+    mon = sys.monitoring
+    tool = mon.COVERAGE_ID
+    try:
+        mon.use_tool_id(tool, "pvmon-cov")
+    except ValueError:
+        return
+    new = _COV["new"]
+
+    def on_line(code, line):
+        fn = code.co_filename
+        if fn.startswith(_PVDIR):
+            new.add((fn[len(_PVDIR):], line))
+        return mon.DISABLE
+
+    mon.register_callback(tool, mon.events.LINE, on_line)
+    mon.set_events(tool, mon.events.LINE)
+    _COV["on"] = True
+
+
+def cov_take():
+    out = sorted(_COV["new"])
+    _COV["new"].clear()
+    return [f"{f}:{l}" for f, l in out]
+
+
+def executable_lines():
+    """{relative file: set(line numbers)} of every module under pyvolutionary/, from the compiled code objects"""
+    import os as _os
+    out = {}
+    for root, _d, files in _os.walk(_PVDIR):
+        for f in files:
+            if not f.endswith(".py"):
+                continue
+            path = _os.path.join(root, f)
+            try:
+                code = compile(open(path).read(), path, "exec")
+            except Exception:
+                continue
+            lines = set()
+            stack = [code]
+            while stack:
+                c = stack.pop()
+                for _s, _e, ln in c.co_lines():
+                    if ln is not None:
+                        lines.add(ln)
+                stack.extend(k for k in c.co_consts if hasattr(k, "co_lines"))
+            out[path[len(_PVDIR):]] = lines
+    return out
